@@ -6,8 +6,10 @@ over TCP and unix sockets, with and without an authenticator, against the contai
 checked echo, a call that lends an object by reference and checks the state of its own service instance, use of
 another connection's object id, graceful close) with hostile sessions: random bytes, bad tags, a ping frame truncated at
 every offset, bit flips in header and payload (the C04 mutation corpus re-framed), corrupt and truncated compressed
-payloads, the length field 0xFFFFFFFF, several frames in one write, disconnecting at each point, failing and stalled
-authentication.  The byte strings go to the model as bytes: the model cuts them into frames itself (`classify`, with the
+payloads, the length field 0xFFFFFFFF, several frames in one write, disconnecting at each point, failing, stalled and
+slow authentication (credentials sent by a later operation), connections reset right after the handshake (SO_LINGER 0,
+in bursts), and forged references: a client sends, on its own connection, the id of an object lent to another client
+(while that one holds it, after it released it, after it disconnected).  The byte strings go to the model as bytes: the model cuts them into frames itself (`classify`, with the
 brine decoder of C04) — only `zlib.decompress` results are supplied as environment facts.  After each operation the
 harness waits (ceiling 10 s, 3 ms polls, no fixed sleeps) until the observable state of the real server equals the
 model's; a case that does not get there is run a second time before it is believed.
@@ -167,6 +169,21 @@ def corpus():
         for k in range(2, 8):
             toks += ["c%d:g" % k, "r%d:%s" % (k, t4), "p1"]
         out.append(case_dict(kind, "unix", False, 2, toks + ["c9:g", "p9", "p1"]))
+    for kind in KINDS:
+        # connect and reset at once (SO_LINGER 0), many times in a row, with and without an authenticator (TCP only)
+        for auth in (False, True):
+            out.append(case_dict(kind, "tcp", auth, 3, ["c1:g", "p1"] + ["c%d:r" % k for k in range(2, 10)] +
+                                 ["p1", "c10:g", "p10"] + ["c%d:r" % k for k in range(11, 15)] + ["p1", "p10"]))
+        # a reference lent to client 1 forged by client 2 on its own connection (str / getattr / hash): while client 1 holds
+        # it, after client 1 released it, after client 1 disconnected
+        if kind != "forking":
+            out.append(case_dict(kind, "tcp", False, 3,
+                                 ["c1:g", "l1", "l1", "l1", "c2:g", "p2", "o2:0", "o2:1", "o2:2", "o1:0", "d1:0", "o2:0",
+                                  "o1:0", "o1:1", "l2", "o1:3", "o2:3", "g1", "o2:1", "o2:2", "p2"]))
+    for kind in ("threaded", "forking"):
+        # slow credentials: the authenticator of one client waits while everybody else goes on
+        out.append(case_dict(kind, "tcp", True, 3, ["c1:g", "p1", "c2:s", "p1", "c3:s", "c4:g", "p4", "k2:g", "p2", "k3:b",
+                                                    "p1", "p4"]))
     # the pool with FEWER than nbThreads workers blocked: unaffected
     out.append(case_dict("pool", "tcp", False, 3, ["c1:g", "c2:g", "r2:" + t4, "c3:g", "r3:" + t4 + "00", "p1", "c4:g", "p4",
                                                    "a2", "p1", "a3", "p4"]))
@@ -183,9 +200,10 @@ def gen_case(r, corp, kind=None):
     auth = r.chance(1, 3)
     nb = r.choice([2, 3, 4])
     toks, nextk = [], 1
-    good, stuck, hostile_open = [], [], []
+    good, stuck, hostile_open, late = [], [], [], []
     lends = 0
     owner = []
+    dropped = set()
 
     def connect_good():
         nonlocal nextk
@@ -206,8 +224,15 @@ def gen_case(r, corp, kind=None):
             nextk += 1
         elif auth and x < 20 and kind != "pool":                      # stalled authentication (pool: the known finding)
             toks.append("c%d:s" % nextk)
-            hostile_open.append(nextk)
+            if r.chance(1, 2):
+                late.append(nextk)                                    # ... whose credentials come later
+            else:
+                hostile_open.append(nextk)
             nextk += 1
+        elif transport == "tcp" and x < 32:                           # connect and reset at once, several times in a row
+            for _ in range(r.range(2, 6)):
+                toks.append("c%d:r" % nextk)
+                nextk += 1
         else:
             k = nextk
             nextk += 1
@@ -235,6 +260,21 @@ def gen_case(r, corp, kind=None):
         if lends and kind != "forking" and r.chance(1, 3):
             g = r.choice(good)
             toks.append("o%d:%d" % (g, r.below(lends)))
+        if lends and r.chance(1, 6):                                  # an owner lets go of an object it was lent
+            n = r.below(lends)
+            if owner[n] in good and n not in dropped:
+                dropped.add(n)
+                toks.append("d%d:%d" % (owner[n], n))
+                if kind != "forking" and len(good) > 1:
+                    toks.append("o%d:%d" % (r.choice([g for g in good if g != owner[n]]), n))
+        if late and r.chance(1, 2):                                   # late credentials arrive
+            k = late.pop(0)
+            if r.chance(2, 3):
+                toks.append("k%d:g" % k)
+                toks.append("p%d" % k)
+                good.append(k)
+            else:
+                toks.append("k%d:b" % k)
         if r.chance(1, 2) and hostile_open:                           # a hostile client disconnects abruptly
             k = r.choice(hostile_open)
             hostile_open.remove(k)
@@ -280,7 +320,7 @@ def compare_case(case, ceiling=servers.CEILING):
 
 
 def hostile_sessions(case):
-    return sum(1 for t in case["ops"] if t[0] == "r" or t.endswith(":b") or t.endswith(":s"))
+    return sum(1 for t in case["ops"] if t[0] == "r" or (t[0] == "c" and t[-2:] in (":b", ":s", ":r")))
 
 
 # ---------------------------------------------------------------------------------------------- correspondence
@@ -385,6 +425,10 @@ def oracle_case(case, known=(), ceiling=servers.CEILING):
                 hostile.add(k)
                 if tok.endswith(":s") and case["auth"]:
                     stalled.add(k)
+            if t == "k":
+                stalled.discard(k)
+                if tok.endswith(":g"):
+                    hostile.discard(k)        # slow, but well-behaved from here on
             if t in "ri":
                 hostile.add(k)
                 data = bytes.fromhex(tok.split(":")[1]) if t == "r" else b"".join(
@@ -405,8 +449,8 @@ def oracle_case(case, known=(), ceiling=servers.CEILING):
                 continue
             if t == "c" and obs != "ok":
                 return where + "a well-behaved client could not connect: %s" % obs, "C16:%s:not-accepting" % kind
-            if t in "plo":
-                want = dict(p=("pong",), l=("ref",), o=("keyerr", "resolved"))[t]
+            if t in "plod":
+                want = dict(p=("pong",), l=("ref",), o=("keyerr", "resolved"), d=("done",))[t]
                 if obs not in want:
                     if obs == "timeout" and excuse:
                         if excuse in known:
@@ -423,6 +467,10 @@ def oracle_case(case, known=(), ceiling=servers.CEILING):
                     n = int(tok.split(":")[1])
                     if n < len(sess.lends):
                         mine = sess.lends[n][0] == k
+                        released = ("d%d:%d" % (sess.lends[n][0], n)) in case["ops"][:i]
+                        if obs == "resolved" and mine and released:
+                            return (where + "client %d used an object it had released and it resolved" % k,
+                                    "C16:%s:released-reference-resolved" % kind)
                         if obs == "resolved" and not mine:
                             return (where + "client %d used an object lent to client %d and it resolved"
                                     % (k, sess.lends[n][0])), "C16:%s:foreign-reference-resolved" % kind
